@@ -1240,6 +1240,8 @@ def run(chk, tier, only_rule=None):
     r05_15(chk, tier)
     r05_16(chk, tier)
     r05_17(chk, tier)
+    from . import c03
+    c03.r03_14(chk, tier)     # a cursor given a new source drops the pointers into the old one in every reset overload
     from . import c15
     for u_ in ('core', 'csv', 'jsonpath', 'jmespath', 'toon'):
         c15.r15_8(chk, F.load([u_], tier), rid='R05.13', floor=1)
